@@ -122,8 +122,11 @@ def summarize_cell_values(
         loss_summaries = {
             key: agg_fns[key.lower()](cell_raw_values) for key in loss_keys
         }
+        # one existing cell's value: the first cell of the coordinate that has one (a cell
+        # lacking the field, e.g. a loss layer carrying losses only, holds None here)
         non_loss_summaries = {
-            key: cell_non_loss_values[key][0] for key in non_loss_keys
+            key: next((val for val in cell_raw_values[key] if val is not None), None)
+            for key in non_loss_keys
         }
 
         return {
